@@ -57,8 +57,8 @@ class MindsDBParser(Parser):
         ('left', OR),
         ('left', AND),
         ('right', UNOT),
-        ('left', EQUALS, NEQUALS),
-        ('nonassoc', LESS, LEQ, GREATER, GEQ, IN, NOT_IN, BETWEEN, IS, IS_NOT, NOT_LIKE, LIKE),
+        ('left', EQUALS, NEQUALS, IS, IS_NOT, IN, NOT_IN, LIKE, NOT_LIKE, BETWEEN),
+        ('left', LESS, LEQ, GREATER, GEQ),
         ('left', JSON_GET),
         ('left', PLUS, MINUS),
         ('left', STAR, DIVIDE, TYPECAST, MODULO),
@@ -1533,7 +1533,7 @@ class MindsDBParser(Parser):
 
 
     # arguments are optional in functions, so that things like `select database()` are possible
-    @_('expr BETWEEN expr AND expr')
+    @_('expr BETWEEN expr AND expr %prec BETWEEN')
     def expr(self, p):
         return BetweenOperation(args=(p.expr0, p.expr1, p.expr2))
 
